@@ -68,6 +68,9 @@ Data(ds) ==
     [] ds = "long" ->                                                  \* strings at the 250 character border of the o5m table
          << NodeB(1, 0, 0, <<T("k1", "v1"), T("k100", "L151"), T("k1", "v1"), T("k100", "L150"), T("k1", "v1"), T("k100", "L150"), T("k100", "L151")>>),
             RelB(2, <<M("n", 1, "ra"), M("n", 2, "R251"), M("n", 3, "ra"), M("w", 1, "R249"), M("n", 3, "ra"), M("w", 2, "R249"), M("n", 4, "R251")>>, <<>>) >>
+    [] ds = "kids" ->                                                  \* several tags AND several references (child order of XML)
+         << WayB(1, <<1, 2, 3>>, <<T("k1", "v1"), T("k2", "v2")>>),
+            RelB(2, <<M("n", 1, "ra"), M("w", 1, "rb")>>, <<T("k1", "v1"), T("k2", "v2"), T("k3", "v3")>>) >>
     [] ds = "role250" ->                                               \* the single-string border of the o5m table
          << RelB(2, <<M("n", 1, "ra"), M("n", 2, "R250"), M("n", 3, "ra"), M("w", 4, "R250")>>, <<>>) >>
     [] ds = "meta" ->                                                  \* every metadata level a format can express
@@ -90,10 +93,11 @@ Data(ds) ==
          << NodeB(8, 100, 100, <<>>), NodeB(3, -100, -100, <<>>), NodeB(-4, 100, 100, <<>>), NodeB(-1, -100, 50, <<>>),
             WayB(5, <<8, -4, 3, 8>>, <<>>), WayB(-2, <<-1, 8>>, <<>>),
             RelB(6, <<M("n", 8, "ra"), M("w", 5, "ra"), M("n", -4, "ra"), M("r", 6, "rb"), M("w", -2, "ra"), M("r", -3, "ra")>>, <<>>),
-            RelB(-3, <<M("r", 6, "rb"), M("n", 3, "ra")>>, <<>>) >>
+            RelB(-3, <<M("r", 6, "rb"), M("n", 3, "ra"), M("w", 5, "rb"), M("w", -2, "ra")>>, <<>>),
+            RelB(4, <<M("w", -2, "ra"), M("n", 8, "ra"), M("r", -3, "rb")>>, <<>>) >>
     [] OTHER -> <<>>
 
-AllDataSets == {"empty", "tiny", "tiny2", "basic", "wrap", "long", "role250", "meta", "hist", "delta"}
+AllDataSets == {"empty", "tiny", "tiny2", "basic", "wrap", "long", "kids", "role250", "meta", "hist", "delta"}
 
 (* ---- what a format can carry (the quantifier of the property is restricted per format to this) *)
 HasAuthor(o) == o.cs # 0 \/ o.uid # 0 \/ o.user # ""
@@ -104,9 +108,8 @@ O5mCarries(o) ==
     /\ (~o.vis => o.tags = <<>> /\ o.refs = <<>> /\ o.mems = <<>> /\ o.lon = NoCoord)
     /\ (o.vis /\ o.t = "n" => o.lon # NoCoord)
 PbfCarries(o) == o.t = "n" /\ o.vis => o.lon # NoCoord  \* lat / lon are required fields of a visible node
-TextCarries(o) == TRUE
+\* (OSM XML and OPL carry every object of the catalogue)
 
-Seqs(S, n) == UNION {[1..k -> S] : k \in 0..n}
 IsPrefix(a, b) == Len(a) <= Len(b) /\ a = SubSeq(b, 1, Len(a))
 
 \* sorted sequence of a set of integers / ranks (used for ToJson friendly export of sets)
@@ -121,6 +124,4 @@ DefaultFields(o) ==
     (IF o.t = "w" /\ o.refs = <<>> THEN {"N"} ELSE {}) \cup (IF o.t = "r" /\ o.mems = <<>> THEN {"M"} ELSE {}) \cup
     (IF o.t = "n" /\ o.lon = NoCoord THEN {"x"} ELSE {})
 
-\* the object a decoder reconstructs from the fields that WERE written plus defaults for the others
-Blank(t, id) == Obj(t, id, 0, TRUE, 0, 0, 0, "", NoCoord, NoCoord, <<>>, <<>>, <<>>)
 =============================================================================
